@@ -2,6 +2,7 @@ import Driver.Common
 import FianoModel.Cbfs.Model
 import FianoModel.Cbfs.Spec
 import FianoModel.Cbfs.Present
+import FianoModel.Cbfs.Keep
 
 open Fiano Fiano.Cbfs Driver
 
@@ -72,11 +73,42 @@ def splitImgReq : List String → Option (List String × String)
   | ["texthex", img] => some (["texthex"], img)
   | ["json", img] => some (["json"], img)
   | ["update", variant, img] => some (["update", variant], img)
+  | ["remove", variant, name, img] => some (["remove", variant, name], img)
   | _ => none
 
+/-- the leading word `keep` selects the model of the code as repaired by
+    fixes/C19-update-empty-identity.diff (`newImageK`: empty-space records keep their bytes) -/
+def splitVariant : List String → Bool × List String
+  | "keep" :: rest => (true, rest)
+  | ws => (false, ws)
+
+def readImage (keep : Bool) (d : Bytes) : Except Err Image := if keep then newImageK d else newImage d
+
+def showSegs (segs : List Seg) : String := segs.foldl (fun acc s => acc ++ "|" ++ showSeg s) s!"{segs.length}"
+
 /-- answer to a request about one image, given what `newImage` returned for it -/
-def answerImg (op : List String) (r : Except Err Image) : String :=
+def answerImg (keep : Bool) (op : List String) (r : Except Err Image) : String :=
   match op with
+  | ["remove", variant, name] =>
+    -- Image.Remove(name) on the image as read, then Image.Update: error class of Remove, the record
+    -- list afterwards, error class of Update, digest and length of Image.Data
+    if variant ≠ "fix" ∧ variant ≠ "head" then "bad-op" else
+    match parseHex name, r with
+    | none, _ => "bad-op"
+    | _, .error _ => "err"
+    | some n, .ok i =>
+      match removeSegs keep (variant = "fix") i.segs n with
+      | .error .noRoom => "noroom"
+      | .error .notFound => "notfound"
+      | .error .permission => "permission"
+      | .error .panic => "panic"
+      | .ok segs =>
+        let (out, e) := update { i with segs := segs }
+        let es := match e with
+          | none => "ok"
+          | some .region => "region"
+          | some .panic => "panic"
+        s!"ok {showSegs segs} {es} {(fnv1a out).toNat} {out.length}"
   | ["list"] => showImage r
   | ["text"] =>
     -- Image.String(): digest and length of the text
@@ -107,13 +139,13 @@ def answerImg (op : List String) (r : Except Err Image) : String :=
   | _ => "bad-op"
 
 /-- `serlist`: both sides build the image from the recipe; returns the image too (for the cache) -/
-def serlist : List String → Option (Bytes × Except Err Image)
+def serlist (keep : Bool) : List String → Option (Bytes × Except Err Image)
   | ["serlist", pre, post, fill, recs] =>
     match parseHex pre, parseHex post, fill.toNat?, parseRecs recs with
     | some p, some q, some f, some rs =>
       if f ≥ 256 then none else
       let img := Spec.ser { pre := p, recs := rs, fill := UInt8.ofNat f, post := q }
-      some (img, newImage img)
+      some (img, readImage keep img)
     | _, _, _, _ => none
   | _ => none
 
@@ -139,19 +171,20 @@ def handleOther : List String → String
   | _ => "bad-op"
 
 /-- the pure request handler (the specification of the driver) -/
-def handle (ws : List String) : String :=
+def handle (ws0 : List String) : String :=
+  let (keep, ws) := splitVariant ws0
   match splitImgReq ws with
   | some (op, hx) =>
     match parseHex hx with
     | none => "bad-op"
-    | some d => answerImg op (newImage d)
+    | some d => answerImg keep op (readImage keep d)
   | none =>
     match ws with
     | "serlist" :: _ =>
-      match serlist ws with
+      match serlist keep ws with
       | some (img, r) => s!"{(fnv1a img).toNat} {img.length} {showImage r}"
       | none => "bad-op"
-    | _ => handleOther ws
+    | _ => if keep then "bad-op" else handleOther ws
 
 /-- `handle`, with the result of `newImage` for the last image kept: the harness asks several
     questions (list, text, json, update) about the same bytes in a row, and parsing dominates. The
@@ -159,34 +192,34 @@ def handle (ws : List String) : String :=
 partial def main : IO Unit := do
   let stdin ← IO.getStdin
   let stdout ← IO.getStdout
-  let cache ← IO.mkRef (none : Option (String × Except Err Image))
+  let cache ← IO.mkRef (none : Option (Bool × String × Except Err Image))
   let rec go : IO Unit := do
     let line ← stdin.getLine
     if line.isEmpty then return ()
-    let ws := words line
+    let (keep, ws) := splitVariant (words line)
     let out ← match splitImgReq ws with
       | some (op, hx) => do
         let hit := match (← cache.get) with
-          | some (k, v) => if k == hx then some v else none
+          | some (kp, k, v) => if kp == keep && k == hx then some v else none
           | none => none
         match hit with
-        | some r => pure (answerImg op r)
+        | some r => pure (answerImg keep op r)
         | none =>
           match parseHex hx with
           | none => pure "bad-op"
           | some d =>
-            let r := newImage d
-            cache.set (some (hx, r))
-            pure (answerImg op r)
+            let r := readImage keep d
+            cache.set (some (keep, hx, r))
+            pure (answerImg keep op r)
       | none =>
         match ws with
         | "serlist" :: _ =>
-          match serlist ws with
+          match serlist keep ws with
           | some (img, r) =>
-            cache.set (some (toHex img, r))
+            cache.set (some (keep, toHex img, r))
             pure s!"{(fnv1a img).toNat} {img.length} {showImage r}"
           | none => pure "bad-op"
-        | _ => pure (handleOther ws)
+        | _ => pure (if keep then "bad-op" else handleOther ws)
     stdout.putStrLn out
     stdout.flush
     go
